@@ -66,6 +66,10 @@ def configs(tier):
     # the application submits the next request to the same peer from inside the completion callback
     add(d_big, c={"retries": 1}, reqs=[(0, 0), (3, 3), (0, 0)], via="iocb-chain", label="iocb-chain-3")
     add(d_big, c={"retries": 0}, reqs=[(0, rs(2)), (rq(2), 0)], via="iocb-chain", label="iocb-chain-seg")
+    # the client application also talks to the same peer with an unconfirmed request of its own, at any point
+    add(d_small, c={"retries": 1}, reqs=[(0, 0), (5, 5)], via="iocb", sidetalk=True, label="iocb-2queued-sidetalk")
+    add(d_big, c={"retries": 0}, reqs=[(0, rs(2))], via="iocb", answer="hold", sidetalk=True, label="iocb-hold-sidetalk")
+    add(d_small, c={"retries": 1}, reqs=[(0, 0)], sidetalk=True, label="plain-sidetalk")
     # on both sides of the boundary
     for (a, b) in ((rq(1), rs(1)), (rq(1) + 1, 0), (0, rs(1) + 1)):
         add(d_big, reqs=[(a, b)], label="boundary")
@@ -122,6 +126,7 @@ def closure_configs(tier):
     add(5000, c={"retries": 1}, s={"retries": 1}, reqs=[(0, 0)], answer="hold", label="closure-hold")
     add(5000, c={"retries": 1}, s={"retries": 1}, reqs=[(0, 0)], via="iocb", label="closure-iocb")
     add(8000, c={"retries": 0}, s={"retries": 0}, reqs=[(0, 0), (0, 0)], via="iocb-chain", label="closure-iocb-chain")
+    add(8000, c={"retries": 0}, s={"retries": 0}, reqs=[(0, 0), (0, 0)], via="iocb", sidetalk=True, label="closure-iocb-sidetalk")
     if tier != "quick":
         add(60000, c={"retries": 1}, s={"retries": 1}, reqs=[(0, 0)], dupcap=1, reorder=1, label="closure-unseg-dup-reorder")
         add(150000, c={"retries": 1}, s={"retries": 1}, reqs=[(0, rs(2))], dupcap=1, reorder=1, label="closure-segresp2-dup-reorder")
